@@ -45,7 +45,7 @@ CHECKS["C05"] = {
                     "presence of empty intermediate messages on mask paths is not compared"],
     "jobs": [
         rapid_job("tuples", "./verifh/c05", "TestMaskedWrite", 20000, 120000),
-        rapid_job("sequences", "./verifh/c05", "TestWriteSequence", 6000, 40000),
+        rapid_job("sequences", "./verifh/c05", "TestWriteSequence|TestOptionMasksAreNotKept", 6000, 40000),
         {"name": "fuzz-maskedwrite", "pkg": "./verifh/c05", "run": "^$", "rapid": False, "fuzz": "FuzzMaskedWrite", "fuzztime": {T: 240}, "tiers": (T,), "shards": {T: 1}},
     ],
 }
@@ -59,6 +59,7 @@ CHECKS["C06"] = {
     "assumptions": ["presence of empty intermediate messages on a mask path is not compared", "for invalid masks only validation, no-panic and non-mutation are asserted"],
     "jobs": [
         rapid_job("valid", "./verifh/c06", "TestReadMask|TestValidateAcceptsValid", 6000, 40000),
+        rapid_job("pull", "./verifh/c06", "TestPullProjectionsSideBySide", 2500, 15000),
         rapid_job("corrupt", "./verifh/c06", "TestCorruptMask", 6000, 40000),
         {"name": "fuzz-readmask", "pkg": "./verifh/c06", "run": "^$", "rapid": False, "fuzz": "FuzzReadMask", "fuzztime": {T: 150}, "tiers": (T,), "shards": {T: 1}},
     ],
@@ -75,8 +76,8 @@ CHECKS["C16"] = {
                     "float predicates are evaluated in float64 with the same formula shape as documented: |x-y| <= max(margin, fraction*min(|x|,|y|))"],
     "jobs": [
         rapid_job("default", "./verifh/c16", "TestDefaultEqual", 30000, 200000),
-        rapid_job("tolerance", "./verifh/c16", "TestTolerance|TestDurationWithinP", 30000, 200000),
-        rapid_job("resource", "./verifh/c16", "TestValueEquivalence|TestCollectionEquivalence", 3000, 20000),
+        rapid_job("tolerance", "./verifh/c16", "TestTolerance|TestDurationWithinP|TestToleranceExtremes", 30000, 200000),
+        rapid_job("resource", "./verifh/c16", "TestValueEquivalence|TestCollectionEquivalence|TestEquivalenceWithFilteredView", 3000, 20000),
     ],
 }
 
@@ -91,7 +92,7 @@ CHECKS["C17"] = {
     "all_exhaustive": False,
     "assumptions": ["completion order is observed through goroutine exit of executeEach's member wrapper (runtime.Stack)", "a member's context is checked at the moment it is released"],
     "jobs": [
-        enum_job("exhaustive", "./verifh/c17", "TestGroupExhaustive", timeout={Q: 600, T: 1800}),
+        enum_job("exhaustive", "./verifh/c17", "TestGroupExhaustive", shards={Q: 6, T: 12}, timeout={Q: 600, T: 1800}),
         rapid_job("random", "./verifh/c17", "TestGroupRandom", 1500, 8000, shards_t=8),
         rapid_job("trait-groups", "./verifh/c17", "TestTraitGroups", 800, 5000, shards_t=8),
     ],
@@ -196,6 +197,7 @@ CHECKS["C03"] = {
                     "updates-only subscriptions are checked for ids written after the subscribe call returned"],
     "jobs": [
         rapid_job("forced", "./verifh/c03", "TestForcedSubscribe", 4000, 30000, timeout={Q: 150, T: 1200}),
+        rapid_job("delete-window", "./verifh/c03", "TestForcedDeleteWindow", 2500, 15000, shards_t=4, timeout={Q: 150, T: 1200}),
         rapid_job("stress", "./verifh/c03", "TestStressSubscribe", 1500, 10000, timeout={Q: 150, T: 1200}),
     ],
 }
@@ -313,6 +315,7 @@ CHECKS["C12"] = {
         rapid_job("sweep", "./verifh/c12", "TestAllRoutersSweep", 15, 80, shards={"quick": 4, "thorough": 16}, env_plugins=True),
         rapid_job("random", "./verifh/c12", "TestAllRoutersRandom|TestDefaultName", 15000, 60000),
         rapid_job("registry", "./verifh/c12", "TestRouterRegistry|TestRouterConcurrentFirstGet", 15000, 60000),
+        rapid_job("registry-concurrent", "./verifh/c12", "TestRouterConcurrentMutations", 40, 100, shards={"quick": 4, "thorough": 12}, timeout={"quick": 400, "thorough": 2400}),
         enum_job("generator", "./verifh/c12", "TestGeneratedCodeIsCurrent", env_plugins=True),
     ],
 }
@@ -328,6 +331,7 @@ CHECKS["C13"] = {
     "jobs": [
         rapid_job("differential", "./verifh/c13", "TestWrapMatchesGRPC", 1500, 10000, timeout={Q: 400, T: 2400}),
         rapid_job("isolation", "./verifh/c13", "TestWrapIsolationAndShape|TestWrapCancelWhileServerSends", 300, 2000, shards_t=2),
+        enum_job("held-handler", "./verifh/c13", "TestClientNotHeldByHandler"),
     ],
 }
 
@@ -356,6 +360,7 @@ CHECKS["C14"] = {
                     "real-time behaviour (tweens) is left at its zero default"],
     "jobs": [
         rapid_job("triples", "./verifh/c14", "TestTripleSweep", 1500, 8000, shards={"quick": 8, "thorough": 16}, timeout={"quick": 600, "thorough": 3000}),
+        rapid_job("stalled-reader", "./verifh/c14", "TestStalledReader", 3, 20, shards={"quick": 1, "thorough": 1}, timeout={"quick": 600, "thorough": 3000}),
     ],
 }
 
